@@ -625,7 +625,7 @@ fn budget_for(tier: Tier) -> Budget {
     let scale: f64 = std::env::var("VERIF_SCALE").ok().and_then(|s| s.parse().ok()).unwrap_or(1.0);
     match tier {
         Tier::Quick => Budget {
-            corpus_opts: 1,
+            corpus_opts: 2,
             n_mixed: (100.0 * scale) as usize,
             n_generated: (500.0 * scale) as usize,
             n_keys: 10,
